@@ -157,7 +157,12 @@ func stableBlocked(base map[int64]bool) (string, bool) {
 // goroutines that are inside generated code, the cff runtime or the
 // scheduler. Used when a directive has not returned: a wall-clock timeout
 // alone is never a verdict.
-func HangDump() (string, bool) {
+func HangDump() (string, bool) { return stableDump(true) }
+
+// StableDump is HangDump without the filter: the stacks of all goroutines.
+func StableDump() (string, bool) { return stableDump(false) }
+
+func stableDump(onlyCff bool) (string, bool) {
 	snap := func() (map[int64]string, string, bool) {
 		m := map[int64]string{}
 		var sb strings.Builder
@@ -173,7 +178,7 @@ func HangDump() (string, bool) {
 				return nil, "", false
 			}
 			m[g.ID] = st
-			if strings.Contains(g.Text, "vcase/") || strings.Contains(g.Text, "go.uber.org/cff") {
+			if !onlyCff || strings.Contains(g.Text, "vcase/") || strings.Contains(g.Text, "go.uber.org/cff") {
 				sb.WriteString(g.Text + "\n\n")
 			}
 		}
